@@ -385,8 +385,46 @@ def d6_registration_at_flush(ctx):
                        "seq %s ; time %s" % (show(seq, tb.names)[:120], show(tm, tb.names)[:120]), key="D6:register-args", loc=t.get("loc"))
 
 
+def d7_a_reset_retires_everything(ctx):
+    """"...or retired by a reset of that link": the two resets empty the log and zero the counter on every path (a reset that
+    returns early for some link state leaves stale packets in flight), and both teardown entry points always reach the core reset."""
+    for st in (CONN + "::reset_core_state", CONN + "::clear_pre_registration_state"):
+        f = ctx.fn(st, "D7")
+        if not f:
+            continue
+        cfg = ctx.cfg(f)
+        fa = ctx.fa(f)
+        clears = [bb for (bb, t, kind) in log_mutation_sites(ctx, f) if kind == "clear"]
+        zero = []
+        mark = []
+        for bi, blk in enumerate(f.blocks):
+            if blk["cleanup"]:
+                continue
+            for si, s_ in enumerate(blk["stmts"]):
+                if s_["k"] != "assign":
+                    continue
+                pr = s_["p"]["proj"]
+                if pr and pr[0]["k"] == "deref" and pr[-1]["k"] == "field" and s_["p"]["l"] == 1:
+                    v = fa.val_rvalue(s_["rv"], (bi, si))
+                    if pr[-1].get("n") == "in_flight_packets" and v[0] == "const" and v[1] == 0:
+                        zero.append(bi)
+                    if pr[-1].get("n") == "highest_acked_seq" and v[0] == "const" and v[1] == -2147483648:
+                        mark.append(bi)
+        for what, sites in (("empties packet_log", clears), ("zeroes in_flight_packets", zero), ("rewinds the cumulative-ACK mark to i32::MIN", mark)):
+            ok = bool(sites) and not cfg.returns_reachable_avoiding(set(sites))
+            ctx.chk.ob("D7", "%s %s on every path to its return" % (sname(st), what), ok, "sites in blocks %s" % sorted(set(sites)), key="D7:reset-always:%s:%s" % (st, what.split()[0]))
+    for st in (CONN + "::mark_for_recovery", CONN + "::reset_for_reconnect"):
+        f = ctx.fn(st, "D7")
+        if not f:
+            continue
+        cfg = ctx.cfg(f)
+        sites = [bb for (bb, t) in calls_to(f, stable=CONN + "::reset_core_state")]
+        ok = bool(sites) and not cfg.returns_reachable_avoiding(set(sites))
+        ctx.chk.ob("D7", "%s always runs the core reset" % sname(st), ok, "call blocks %s" % sites, key="D7:teardown-resets:%s" % st)
+
+
 RULES = [d1_representation_invariant, d2_retire_only_if_held, d3_cumulative_ack_shape, d4_no_entry_below_highwater,
-         d5_srtla_ack_attribution, d6_registration_at_flush]
+         d5_srtla_ack_attribution, d6_registration_at_flush, d7_a_reset_retires_everything]
 
 
 def run(ctx):
